@@ -55,9 +55,9 @@ def stack_queries(nn, quick_shapes=((1, 0), (1, 1), (2, 0), (2, 1), (2, 2)), tho
     """api/stack.cpp: N stacked expectations, SAT = bitmask of pre-saturated ones; only property nn's obligations"""
     qs = []
     for n, sat in quick_shapes:
-        qs.append(Q('stack_N%d_sat%d' % (n, sat), 'api/stack.cpp', n + 3, defs={'VF_N': n, 'VF_SAT': sat, 'VF_CLAIM': nn}, timeout=600))
+        qs.append(Q('stack_N%d_sat%d' % (n, sat), 'api/stack.cpp', n + 3, defs={'VF_N': n, 'VF_SAT': sat, 'VF_CLAIM': nn}, timeout=900, portfolio=True))
     for n, sat in thorough_shapes:
-        qs.append(Q('stack_N%d_sat%d' % (n, sat), 'api/stack.cpp', n + 3, tier='thorough', defs={'VF_N': n, 'VF_SAT': sat, 'VF_CLAIM': nn}, timeout=3000))
+        qs.append(Q('stack_N%d_sat%d' % (n, sat), 'api/stack.cpp', n + 3, tier='thorough', defs={'VF_N': n, 'VF_SAT': sat, 'VF_CLAIM': nn}, timeout=3000, portfolio=True))
     return qs
 
 
@@ -108,74 +108,25 @@ def c07():
 # ------------------------------------------------------------------------------------------- C08
 @prop('C08')
 def c08():
-    return dict(
-        queries=stack_queries(8),
-        level='model_checking',
-        level_text='Bounded: only the handling expectation\'s side effect runs, once; its RETURN value reaches the caller.',
-        bound=STACK_BOUND,
-    )
-
-
-# ------------------------------------------------------------------------------------------- C05 / C06 kernels
-def seqkern_queries(nn):
-    """seq/kern.cpp shapes: (N handles, K sequences, GONE mask, OP, PICK)"""
-    shapes = []
-    for n, tier in ((1, 'quick'), (2, 'quick'), (3, 'quick'), (4, 'thorough')):
-        for k in (1, 2):
-            for gone in range(1 << n):
-                if k == 2 and gone not in (0, 1, (1 << n) - 2):
-                    continue
-                shapes.append((n, k, gone, 0, 0, tier))
-                if n >= 2 and (tier == 'thorough' or gone in (0, 1, 2, 5)):
-                    for pick in range(n):
-                        for op in (1, 2, 4):
-                            shapes.append((n, k, gone, op, pick, tier))
-                if k == 1:
-                    shapes.append((n, k, gone, 3, 0, tier))
     qs = []
-    for i, (n, k, gone, op, pick, tier) in enumerate(shapes):
-        qs.append(Q('seqkern_N%d_K%d_gone%d_op%d_pick%d' % (n, k, gone, op, pick), 'seq/kern.cpp', 10, tier=tier,
-                    defs={'VF_N': n, 'VF_K': k, 'VF_GONE': gone, 'VF_OP': op, 'VF_PICK': pick, 'VF_CLAIM': nn}, tv=(i % 7 == 0), timeout=300))
-    return qs
-
-
-SEQKERN_BOUND = ('seq/kern: N<=3 (quick) / 4 (thorough) real handles in 1..2 real sequences, every subset already retired, all 64-bit (L,H,count) per handle; '
-                 'one of {query, retire_predecessors, retire, sequence destruction, handle destruction} at every position')
-
-
-def seqstep_queries(nn):
-    qs = []
-    quick = [((1, 1, 1), 0, 0), ((1, 1, 1), 0, 1), ((1, 1, 1), 0, 2), ((1, 1, 1), 1, 1), ((1, 1, 1), 1, 0), ((1, 1, 1), 2, 2),
-             ((1, 3, 2), 0, 1), ((1, 3, 2), 0, 2), ((3, 3, 3), 0, 2), ((1, 0, 1), 0, 2), ((1, 0, 1), 0, 1), ((3, 1, 2), 0, 2)]
-    thorough = []
-    for mb in ((1, 1, 1), (1, 3, 2), (3, 3, 3), (1, 0, 1), (3, 1, 2), (2, 3, 1), (1, 2, 3), (3, 3, 1)):
-        for gone in (0, 1, 2, 3, 4, 5):
-            for call in (0, 1, 2):
-                if (mb, gone, call) not in quick: thorough.append((mb, gone, call))
-    for tier, shapes in (('quick', quick), ('thorough', thorough)):
-        for mb, gone, call in shapes:
-            qs.append(Q('seqstep_mb%d%d%d_gone%d_call%d' % (mb + (gone, call)), 'api/seqstep.cpp', 6, tier=tier,
-                        defs={'VF_MB0': mb[0], 'VF_MB1': mb[1], 'VF_MB2': mb[2], 'VF_GONE': gone, 'VF_CALL': call, 'VF_CLAIM': nn}, timeout=1500))
-    return qs
-
-
-@prop('C05')
-def c05():
+    i = 0
+    for w in (0, 1, 2, 3):
+        for sn in (0, 1, 2, 3):
+            for mode in (0, 1, 2, 3):
+                ats = range(sn) if mode == 2 else (0,)
+                if mode == 2 and sn == 0: continue
+                for at in ats:
+                    for b in range(1 << w):
+                        quick = (w, sn) in ((0, 0), (1, 1), (2, 2), (3, 3), (2, 3), (3, 1)) or (mode == 0 and b == (1 << w) - 1)
+                        qs.append(Q('actions_W%d_S%d_mode%d_at%d_b%d' % (w, sn, mode, at, b), 'C08/actions.cpp', 6, tier='quick' if quick else 'thorough',
+                                    defs={'VF_W': w, 'VF_S': sn, 'VF_MODE': mode, 'VF_AT': at, 'VF_B': b, 'VF_CLAIM': 8}, tv=(i % 11 == 0), timeout=600))
+                        i += 1
     return dict(
-        queries=seqkern_queries(5) + seqstep_queries(5),
+        queries=qs + stack_queries(8, quick_shapes=((1, 0), (2, 1), (2, 2)), thorough_shapes=((2, 0), (3, 0))),
         level='model_checking',
-        level_text='Bounded: cost/order/eligibility of real sequence handles equal the reference for every retirement pattern and all counters; retire_predecessors / retire / release remove exactly the right handles.',
-        bound=SEQKERN_BOUND,
-    )
-
-
-@prop('C06')
-def c06():
-    return dict(
-        queries=seqkern_queries(6),
-        level='model_checking',
-        level_text='Bounded: is_completed() iff every listed handle is satisfied; sequence destruction reports once, non-fatally, exactly the listed expectations and detaches them; empty teardown is silent.',
-        bound=SEQKERN_BOUND,
+        level_text='Bounded: for every clause arrangement (0..3 WITH x 0..3 SIDE_EFFECT x RETURN/THROW/throwing side effect/void) and every WITH outcome vector: WITH clauses run in declaration order and stop at the first false, side effects run once each in order and only then RETURN/THROW once, the value / exception reaches the caller for all 32-bit values, a throwing call still counts, and a shadowed expectation\'s actions never run.',
+        bound='clause arrangements up to 3+3 (enumerated shapes, WITH outcomes as shape); argument, returned and thrown values symbolic; ' + STACK_BOUND,
+        outside='recursive mock calls from a side effect; reference / pointer returns (C09 retref shapes)',
     )
 
 
@@ -269,6 +220,22 @@ def c14():
     )
 
 
+# ------------------------------------------------------------------------------------------- C09
+@prop('C09')
+def c09():
+    import gen
+    files = gen.c09_files(os.path.join(GEN, 'C09'), CUR_TIER)
+    qs = [Q(name, path, 18, timeout=600, tv=(k % 5 == 0)) for k, (name, path, n) in enumerate(files)]
+    qs += [Q('capture_%d' % v, 'C09/capture.cpp', 6, defs={'VF_V': v}, timeout=300) for v in (0, 1, 2)]
+    return dict(
+        queries=qs,
+        level='model_checking',
+        level_text='Bounded: for every arity in the tier and every passing mode, every _k inside WITH/SIDE_EFFECT/RETURN is the caller\'s k-th argument (address identity for references / pointers, value for by-value with exactly one copy into the parameter), writes through references and pointers reach the caller, move-only arguments arrive unmoved, a returned reference aliases the caller\'s object; plain clauses see creation-time copies of locals, LR_ clauses the current value; const, overloaded and interface-implementing mock functions.',
+        bound='arities {1,2,3,8,15} quick / 1..15 thorough x {value (copy-counting), &, const&, &&, pointer, unique_ptr by value, reference return}; all 32-bit values; straight-line (the clause records what it saw and accepts)',
+        outside='arity 0 has no _k; THROW clauses; COM / STDMETHOD mocks',
+    )
+
+
 # ------------------------------------------------------------------------------------------- C10
 @prop('C10')
 def c10():
@@ -281,6 +248,46 @@ def c10():
         level_text='Bounded: param_matches(tree, x) equals the mathematical predicate for all 32-bit argument and operand values (and null / non-null pointers), for every matcher expression tree in the enumerated + drawn set of depth <= 3.',
         bound='expression trees of depth <=3 over eq/ne/lt/le/gt/ge (duck-typed and <int>), _, ANY(int), plain values, !, *, any_of/all_of/none_of with 1..3 operands, MEMBER_IS; all int values',
         outside='re(): the regular expression engine is libstdc++ and outside the claim; string operands',
+    )
+
+
+# ------------------------------------------------------------------------------------------- C17
+def trace_shapes(maxlen):
+    out = []
+    for n in range(1, maxlen + 1):
+        for seq in itertools.product((1, 3, 4, 5, 6, 7), repeat=n):
+            d = 0; ok = True; calls = 0
+            for o in seq:
+                if o == 1:
+                    d += 1
+                    if d > 2: ok = False
+                elif o == 3:
+                    if d == 0: ok = False
+                    d -= 1
+                else: calls += 1
+            if ok and calls >= 1 and seq[-1] != 1:
+                out.append(seq)
+    return out
+
+
+@prop('C17')
+def c17():
+    qs = []
+    seen = set()
+    for tier, ml in (('quick', 3), ('thorough', 5)):
+        for i, seq in enumerate(trace_shapes(ml)):
+            if seq in seen: continue
+            if tier == 'thorough' and len(seq) == 5 and (hash(seq) % 4): continue     # a quarter of the length-5 nestings
+            seen.add(seq)
+            defs = {'VF_O%d' % (j + 1): (seq[j] if j < len(seq) else 0) for j in range(6)}
+            defs['VF_CLAIM'] = 17
+            qs.append(Q('trace_' + ''.join(map(str, seq)), 'C17/trace.cpp', 6, tier=tier, defs=defs, tv=(i % 10 == 0), timeout=300))
+    return dict(
+        queries=qs,
+        level='model_checking',
+        level_text='Bounded: for every nesting of up to 2 tracer lifetimes interleaved with up to 3 (5) accepted calls of the four kinds, each call delivers exactly one record to the innermost live tracer (none when no tracer lives), carrying the handler\'s location and text, the argument, and the returned value / what() / unknown-exception note, for all 32-bit argument and return values; the previous tracer is restored on destruction.',
+        bound='op sequences of length <=3 (quick) / <=5 (thorough, a quarter of length 5) over {construct tracer, destroy innermost, value call, void call, std-exception call, int-exception call}, nesting depth <=2',
+        outside='stream_tracer formatting; recursion from side effects',
     )
 
 
